@@ -126,8 +126,15 @@ func main() {
 func run(repo, prop, tier string, seed int64, onlyRule, replayKey string, verbose bool) int {
 	t0 := time.Now()
 	var rules []*Rule
+	seenID := map[string]bool{}
 	for _, r := range allRules {
-		if r.Prop != prop {
+		if prop == "ALL" {
+			// development aid (tools/benignrun.sh): every rule once, no evidence written
+			if seenID[r.ID] {
+				continue
+			}
+			seenID[r.ID] = true
+		} else if r.Prop != prop {
 			continue
 		}
 		if onlyRule != "" && r.ID != onlyRule {
@@ -217,7 +224,7 @@ func run(repo, prop, tier string, seed int64, onlyRule, replayKey string, verbos
 	}
 	known := map[string]knownFinding{}
 	for _, k := range kf.Findings {
-		if k.Property == prop {
+		if k.Property == prop || prop == "ALL" {
 			known[k.Key] = k
 		}
 	}
@@ -340,7 +347,9 @@ func run(repo, prop, tier string, seed int64, onlyRule, replayKey string, verbos
 	}
 	os.MkdirAll(filepath.Join(verifDir, "evidence"), 0o755)
 	b, _ := json.MarshalIndent(ev, "", " ")
-	if err := os.WriteFile(filepath.Join(verifDir, "evidence", prop+".json"), b, 0o644); err != nil {
+	if prop == "ALL" {
+		// not a property: nothing to record
+	} else if err := os.WriteFile(filepath.Join(verifDir, "evidence", prop+".json"), b, 0o644); err != nil {
 		fmt.Println("cannot write evidence:", err)
 		return 2
 	}
